@@ -233,3 +233,138 @@ pub fn c09(sink: &mut Sink, rng: &mut Rng, thorough: bool) {
     }
   }
 }
+
+// ---------------------------------------------------------------- C11: ST serialisation
+/// (start, end) rows of the data unit of an ST FITS file (u64 rows), from NAXIS2 of the table HDU.
+fn st_rows(buf: &[u8]) -> Option<Vec<(u64, u64)>> {
+  let mut pos = 0usize;
+  let mut hdu = 0;
+  let mut n2 = 0u64;
+  while pos + 80 <= buf.len() {
+    let card = std::str::from_utf8(&buf[pos..pos + 80]).ok()?;
+    pos += 80;
+    if let Some(v) = card.strip_prefix("NAXIS2  =") {
+      n2 = v.split('/').next()?.trim().parse().ok()?;
+    }
+    if card.starts_with("END ") || card.trim_end() == "END" {
+      pos = (pos + 2879) / 2880 * 2880;
+      hdu += 1;
+      if hdu == 2 {
+        let mut rows = Vec::new();
+        // one u64 per row, two rows per range
+        for k in 0..(n2 as usize / 2) {
+          let a = u64::from_be_bytes(buf.get(pos + 16 * k..pos + 16 * k + 8)?.try_into().ok()?);
+          let b = u64::from_be_bytes(buf.get(pos + 16 * k + 8..pos + 16 * k + 16)?.try_into().ok()?);
+          rows.push((a, b));
+        }
+        return Some(rows);
+      }
+    }
+  }
+  None
+}
+
+pub fn c11(sink: &mut Sink, rng: &mut Rng, thorough: bool) {
+  use moc::deser::ascii::moc2d_from_ascii_ivoa;
+  use moc::deser::fits::{from_fits_ivoa, rangemoc2d_to_fits_ivoa, MocIdxType, MocQtyType, STMocType};
+  use moc::deser::json::cellmoc2d_from_json_aladin;
+  use moc::moc2d::{
+    CellMOC2IntoIterator, CellMOC2Iterator, CellOrCellRangeMOC2IntoIterator, CellOrCellRangeMOC2Iterator,
+    RangeMOC2IntoIterator, RangeMOC2Iterator,
+  };
+  let n = if thorough { 6000 } else { 800 };
+  for k in 0..n {
+    let mut m = if k % 25 == 0 { Vec::new() } else { random_st(rng) };
+    // time indices using the highest usable bits (bit 61/62 region of the u64 time domain)
+    if k % 5 == 1 {
+      if let Some(last) = m.last_mut() {
+        let top = (1u64 << 62) - tunit();
+        if last.0.last().map(|r| r.end < top).unwrap_or(false) {
+          last.0.push(top..(1u64 << 62));
+        }
+      }
+    }
+    let txt = st_txt(&m);
+    let moc2 = to_moc2(&m);
+    let nontrivial = !m.is_empty();
+    // ---- FITS v2
+    let mut buf = Vec::new();
+    if let Err(e) = rangemoc2d_to_fits_ivoa(&moc2, None, None, &mut buf) {
+      sink.impl_failures.push(format!("st-fits-write-error: {}: {}", txt, e));
+      continue;
+    }
+    if buf.len() % 2880 != 0 {
+      sink.impl_failures.push(format!("st-fits-not-2880: {} len {}", txt, buf.len()));
+    }
+    let rows = st_rows(&buf);
+    let rows_txt = match &rows {
+      Some(r) if r.is_empty() => "_".to_string(),
+      Some(r) => r.iter().map(|(a, b)| format!("{}-{}", a, b)).collect::<Vec<_>>().join(","),
+      None => "unreadable".to_string(),
+    };
+    // writer rows = model rows
+    sink.emit(&format!("st_fits_enc 64 {}", txt), &rows_txt, nontrivial);
+    // reader on the real rows = model reader
+    let back = guarded(AssertUnwindSafe(|| match from_fits_ivoa(std::io::Cursor::new(&buf)) {
+      Ok(MocIdxType::U64(MocQtyType::TimeHpx(STMocType::V2(it)))) => {
+        let (d1, d2) = (it.depth_max_1(), it.depth_max_2());
+        let r = it.into_range_moc2();
+        format!("{} {} {}", d1, d2, st_txt(&from_moc2(r)))
+      }
+      Ok(_) => "wrong-kind".to_string(),
+      Err(e) => format!("err {}", e),
+    }));
+    let expect = format!("{} {} {}", moc2.depth_max_1(), moc2.depth_max_2(), txt);
+    if back != expect {
+      sink.impl_failures.push(format!("st-fits-roundtrip: {} -> {}", expect, back));
+    }
+    if rows.is_some() {
+      let only = back.splitn(3, ' ').nth(2).unwrap_or("?").to_string();
+      sink.emit(&format!("st_fits_dec 64 {}", rows_txt), &only, nontrivial);
+    }
+    // idempotence: re-serialising the decoded value gives the same bytes
+    if let Ok(MocIdxType::U64(MocQtyType::TimeHpx(STMocType::V2(it)))) = from_fits_ivoa(std::io::Cursor::new(&buf)) {
+      let r = it.into_range_moc2();
+      let mut buf2 = Vec::new();
+      let _ = rangemoc2d_to_fits_ivoa(&r, None, None, &mut buf2);
+      if buf2 != buf {
+        sink.impl_failures.push(format!("st-fits-not-idempotent: {}", txt));
+      }
+    }
+    sink.count("direct:st-fits");
+    // ---- ASCII
+    let mut t = Vec::new();
+    let res = (&moc2).into_range_moc2_iter().into_cellcellrange_moc2_iter().to_ascii_ivoa(Some(80), false, &mut t);
+    if res.is_ok() {
+      let t = String::from_utf8(t).unwrap();
+      let a = guarded(AssertUnwindSafe(|| match moc2d_from_ascii_ivoa::<u64, Time<u64>, u64, Hpx<u64>>(&t) {
+        Ok(c) => {
+          let r = c.into_cellcellrange_moc2_iter().into_range_moc2_iter().into_range_moc2();
+          format!("{} {} {}", r.depth_max_1(), r.depth_max_2(), st_txt(&from_moc2(r)))
+        }
+        Err(e) => format!("err {}", e),
+      }));
+      sink.count("direct:st-ascii");
+      if a != expect {
+        sink.impl_failures.push(format!("st-ascii-roundtrip: {} -> {:?} -> {}", expect, t, a));
+      }
+    }
+    // ---- JSON
+    let mut t = Vec::new();
+    let res = (&moc2).into_range_moc2_iter().into_cell_moc2_iter().to_json_aladin(&Some(40), &mut t);
+    if res.is_ok() {
+      let t = String::from_utf8(t).unwrap();
+      let a = guarded(AssertUnwindSafe(|| match cellmoc2d_from_json_aladin::<u64, Time<u64>, u64, Hpx<u64>>(&t) {
+        Ok(c) => {
+          let r = c.into_cell_moc2_iter().into_range_moc2_iter().into_range_moc2();
+          format!("{} {} {}", r.depth_max_1(), r.depth_max_2(), st_txt(&from_moc2(r)))
+        }
+        Err(e) => format!("err {}", e),
+      }));
+      sink.count("direct:st-json");
+      if a != expect {
+        sink.impl_failures.push(format!("st-json-roundtrip: {} -> {}", expect, a));
+      }
+    }
+  }
+}
